@@ -38,7 +38,7 @@ def gen_line(rng, ctx):
         r = rng.random()
         if r < 0.3:
             p = rng.choice(ctx["pages"])
-            t = f"[[{p}]]" if rng.random() < 0.6 else f"[[{p}#{rng.choice(['top', 'sec1'])}]]"
+            t = f"[[{p}]]" if rng.random() < 0.6 else f"[[{p}#{rng.choice(['top', 'sec1', 'ab', 'x1z'])}]]"
         elif r < 0.42:
             t = f"[^{rng.choice(['lid1', 'x', 'LID2'])}]"
         elif r < 0.57:
@@ -94,7 +94,7 @@ def one_dir(ctx, res, rng, d):
                     ids.setdefault(v, []).append(r["path"])
                 if k == "RID":
                     rids.setdefault(v, []).append(r["path"])
-        lctx = {"pages": [p[:-3] for p in files] + ["nosuch", "sub/new", "notes.v2", "media/talk.m4a", "zorg-v1.2"], "zids": sorted(zid_page), "own_zids": sorted(zid_page)[:5],
+        lctx = {"pages": [p[:-3] for p in files] + ["nosuch", "sub/new", "notes.v2", "media/talk.m4a", "zorg-v1.2", "240510", "240510"], "zids": sorted(zid_page), "own_zids": sorted(zid_page)[:5],
                 "gids": ["g1", "g2", "G3", "g3", "G1", "nogid"], "rids": ["r1", "r2", "R1", "norid"]}
         # the page holding the line lives at the root of the notes directory or in a sub-directory that also holds a page
         # named like a link target missing at the root (`[[nosuch]]` must still mean <notes dir>/nosuch.zo)
@@ -111,7 +111,9 @@ def one_dir(ctx, res, rng, d):
             # company, and a target whose extension holds a digit
             for line, exp, prim in (("- see [[nosuch]] there", ["[[nosuch]]"], None),
                                     ("o P1 both [[nosuch#top]], and [[notes.v2]].", ["[[nosuch#top]]", "[[notes.v2]]"], None),
-                                    ("- 200101#i0 see [200103#00A] and 200103#zzz too", ["200103#00A", "200103#zzz"], "200101#i0")):
+                                    ("- 200101#i0 see [200103#00A] and 200103#zzz too", ["200103#00A", "200103#zzz"], "200101#i0"),
+                                    ("- journal [[240510#ab]] of that day", ["[[240510#ab]]"], None),
+                                    ("- both [[240510#x1z]] and [[240510]]", ["[[240510#x1z]]", "[[240510]]"], None)):
                 lines.append(line)
                 exps.append((exp, prim))
             for _ in range(ctx.scale(40, 60) if loc == "" else 12):
@@ -216,7 +218,7 @@ def classify(f: C.Failure, entry: dict) -> bool:
 
 
 RULE = (
-    "scratch pages (.zo and .zoq, at the root and in a sub-directory holding a same-named neighbour of a missing link target; two of the four with form feed / U+2028 / NEL / FS in the header line) on indexed directories with 40 / 12 generated lines each: any kind prefix, priority, modify date, primary ZID, 0-5 targets "
+    "scratch pages (.zo and .zoq, at the root and in a sub-directory holding a same-named neighbour of a missing link target; two of the four with form feed / U+2028 / NEL / FS in the header line; links to a page named like a date with 2-3 character anchors) on indexed directories with 40 / 12 generated lines each: any kind prefix, priority, modify date, primary ZID, 0-5 targets "
     "of every kind (page links with / without anchor, local, global, reference links, bare and bracketed ZIDs) between plain words, with surrounding "
     "punctuation; `zorg action open PATH LINE [IDX]` in-process: protocol lines only, PROMPT lists exactly the targets in order, option k / -1 equals the "
     "answer for a line holding only that target, out-of-range options, resolution of single targets against the raw index; all also vs the Lean Action model"
